@@ -284,29 +284,30 @@ def ecsMask (src : Nat) (b : Bytes) : Bytes :=
     | [] => []
     | last :: restRev => (restRev.reverse) ++ [last / 2 ^ (8 - src % 8) * 2 ^ (8 - src % 8)]
 
-/-- `EDEOption.from_wire_parser`: one trailing NUL is dropped -/
+/-- `EDEOption.from_wire_parser` as shipped before the repair `9fad6cc`: *one* trailing NUL was dropped
+(kept as the variant `optShipped` for the recorded counter-example) -/
 def stripNul (b : Bytes) : Bytes :=
   match b.reverse with
   | 0 :: restRev => restRev.reverse
   | _ => b
 
-/-- the intended reading of "text MAY be null-terminated" (repair proposed for the recorded defect
-`C02/fixpoint/EDE-text-ends-with-NUL`): every trailing NUL is dropped, so the decoded text never ends in NUL -/
-def stripNulAll (b : Bytes) : Bytes := (b.reverse.dropWhile (· == 0)).reverse
+/-- `EDEOption.from_wire_parser`: "text MAY be null-terminated" — every trailing NUL is dropped
+(`text.rstrip(b"\x00")`), so a decoded text never ends in NUL -/
+def stripNulAll (b : Bytes) : Bytes := stripTrailingZeros b
 
-/-- `allNul = false`: the code as shipped (one trailing NUL dropped); `true`: the intended variant -/
-def optItemPostWith (allNul : Bool) (it : Val) : Val :=
+/-- `shipped = false`: the code of the working tree; `true`: the variant before the repair -/
+def optItemPostWith (shipped : Bool) (it : Val) : Val :=
   let t := it.fst.toNat
   if t = 8 then .pair it.fst (.pair it.snd.fst (.bytes (ecsMask it.snd.fst.snd.fst.toNat it.snd.snd.toBytes)))
   else if t = 15 then
-    .pair it.fst (.pair it.snd.fst (.bytes ((if allNul then stripNulAll else stripNul) it.snd.snd.toBytes)))
+    .pair it.fst (.pair it.snd.fst (.bytes ((if shipped then stripNul else stripNulAll) it.snd.snd.toBytes)))
   else it
 
 def optItemPost (it : Val) : Val := optItemPostWith false it
 
 def optPost (v : Val) : Option Val := some (.list (v.toList.map optItemPost))
 
-def optPostIntended (v : Val) : Option Val := some (.list (v.toList.map (optItemPostWith true)))
+def optPostShipped (v : Val) : Option Val := some (.list (v.toList.map (optItemPostWith true)))
 
 /-! ## SVCB / HTTPS parameters -/
 
